@@ -186,8 +186,13 @@ def gen_world(rng, p):
 # materialisation
 
 
+LAST_ROOT = None
+
+
 def materialise(world, root):
     """Write the stub source tree; returns the directory to pass as --path."""
+    global LAST_ROOT
+    LAST_ROOT = root
     src = os.path.join(root, 'src')
     pkg = os.path.join(src, PKG)
     tests = os.path.join(pkg, 'tests')
@@ -490,6 +495,8 @@ def with_class_flags(d):
 def argv(opt, src):
     """Structured options -> command line (without argv[0])."""
     a = []
+    if opt.get('relpath'):
+        src = os.path.relpath(src, os.path.dirname(src))     # relative to the start directory
     if opt.get('path_via_test_path'):
         a += ['--test-path', src]
     else:
@@ -518,6 +525,8 @@ def argv(opt, src):
         a.append('-x')
     if opt.get('buffer'):
         a.append('--buffer')
+    if opt.get('pm'):
+        a.append('-D')
     if opt.get('repeat'):
         a += ['--repeat', str(opt['repeat'])]
     if opt.get('shuffle'):
